@@ -449,6 +449,8 @@ int pthread_create(pthread_t *th, const pthread_attr_t *attr, void *(*fn)(void *
     if (r != 0) {
         tr->rec->used.store(0);
         delete tr;
+    } else {
+        maybeDelay(self(), gDelays.afterCreate, gDelays.threadStartMaxUs, gCounters.afterCreate);
     }
     return r;
 }
